@@ -13,8 +13,9 @@ RULE = ('As C03 (netlists, delays >= 0, capacities incl. overflowing ones, multi
         'the circuit graph): every finite timestamp lies inside, lines that cannot switch have none, s[4]/s[5] inside; (b) all input transitions '
         'shifted by a dyadic amount => every timestamp shifted by exactly that amount, same entry counts and overflow marks; (c) times and delays '
         'scaled by 2^k => timestamps scaled; (d) polarity-independent delays => strictly increasing timestamps in every waveform. '
+        'A third of the cases runs the simulator under test with c_reuse=True: (a)-(c) are then checked on the captured rows (s[3..6], s[10]), the per-line checks on a second simulator. '
         'non-trivial: some line carries >= 2 finite timestamps and some gate has >= 2 switching operands; distinct by SHA-1 of the case.')
-ASSUMPTIONS = ['c_reuse off (all lines readable)', 'window oracle walks the Circuit object built through the public API']
+ASSUMPTIONS = ['per-line checks read a simulator with c_reuse off; a third of the cases additionally run with c_reuse and check the captured rows s[3..6, 10]', 'window oracle walks the Circuit object built through the public API']
 
 
 @st.composite
@@ -26,7 +27,7 @@ def cases(draw, tier):
     waves = draw(W.input_waves(n, lanes))
     pre = draw(st.one_of(st.none(), W.input_waves(n, lanes)))
     return dict(nl=nl, lanes=lanes, waves=waves, pre=pre, dpool=draw(W.DELAY_POOL), caps=draw(W.CAPS), f64=draw(st.booleans()),
-                strip_forks=draw(st.booleans()), pol_indep=draw(st.booleans()),
+                strip_forks=draw(st.booleans()), pol_indep=draw(st.booleans()), c_reuse=draw(st.sampled_from([False, False, True])),
                 shift=draw(st.integers(-4096, 8192)), scale=draw(st.integers(-6, 6)), cuda=False)
 
 
@@ -35,7 +36,7 @@ def run(case, b, scale=1.0, shift=0.0):
     nlines = len(b.c.lines)
     delays = W.delays_for(nlines, case['dpool'], dtype='float64' if case['f64'] else 'float32',
                           polarity_independent=case['pol_indep'], scale=scale)
-    sim = WaveSim(b.c, delays, sims=case['lanes'], c_caps=W.caps_for(nlines, case['caps']), c_reuse=False,
+    sim = WaveSim(b.c, delays, sims=case['lanes'], c_caps=W.caps_for(nlines, case['caps']), c_reuse=bool(case.get('c_reuse')),
                   strip_forks=case['strip_forks'])
     if case.get('pre'):         # an earlier, unrelated assignment on the same simulator object must leave no trace
         W.apply_inputs(sim, b, case['nl'], case['pre'])
@@ -84,7 +85,9 @@ def prop(case):
     nl, lanes = case['nl'], case['lanes']
     b = build(nl)
     sim, delays = run(case, b)
-    waves = [[W.line_wave(sim, l.index, lane) for lane in range(lanes)] for l in b.c.lines]
+    reuse = bool(case.get('c_reuse'))      # with memory re-use only the captured rows of `sim` are checked; the lines are read from a second simulator
+    simw = run(dict(case, c_reuse=False), b)[0] if reuse else sim
+    waves = [[W.line_wave(simw, l.index, lane) for lane in range(lanes)] for l in b.c.lines]
     busy = False
     multi_switch = False
     # (a) window, (d) monotonicity
@@ -130,7 +133,7 @@ def prop(case):
 
     # (b) shift, (c) scale
     def compare(sim2, f, what):
-        for l in b.c.lines:
+        for l in ([] if reuse else b.c.lines):
             for lane in range(lanes):
                 w1 = waves[l.index][lane]
                 w2 = W.line_wave(sim2, l.index, lane)
@@ -161,6 +164,7 @@ def prop(case):
     if case['pol_indep']: labels.append('polarity_independent')
     if case['strip_forks']: labels.append('strip_forks')
     if case.get('pre'): labels.append('simulator_reused')
+    if reuse: labels.append('c_reuse_captured_rows')
     if any(w['ovl'] for ww in waves for w in ww): labels.append('overflow')
     return Obs(busy and multi_switch, labels, checks=3 * len(b.c.lines) * lanes)
 
